@@ -122,7 +122,8 @@ pub fn compare(a: &RepSum, b: &RepSum, tol: Decimal, years: bool) -> Diff {
                 if !near(x.gain, y.gain, tol) { d.deep.push(format!("{} {}: gain {} vs {}", k.0, k.1, x.gain, y.gain)); }
                 for (lk, lx) in &x.legs {
                     match y.legs.get(lk) {
-                        None => d.deep.push(format!("{} {}: leg {} {:?} only in first", k.0, k.1, lk.0, lk.1)),
+                        // a leg of less than the tolerance (decimal residue of a non-terminating split ratio) is no leg
+                        None => if lx.q.abs() > tol { d.deep.push(format!("{} {}: leg {} {:?} only in first", k.0, k.1, lk.0, lk.1)) },
                         Some(ly) => {
                             if !near(lx.q, ly.q, tol) { d.deep.push(format!("{} {}: leg {} {:?} quantity {} vs {}", k.0, k.1, lk.0, lk.1, lx.q, ly.q)); }
                             if !near(lx.cost, ly.cost, tol) { d.deep.push(format!("{} {}: leg {} {:?} cost {} vs {}", k.0, k.1, lk.0, lk.1, lx.cost, ly.cost)); }
@@ -131,7 +132,7 @@ pub fn compare(a: &RepSum, b: &RepSum, tol: Decimal, years: bool) -> Diff {
                     }
                 }
                 for lk in y.legs.keys() {
-                    if !x.legs.contains_key(lk) { d.deep.push(format!("{} {}: leg {} {:?} only in second", k.0, k.1, lk.0, lk.1)); }
+                    if !x.legs.contains_key(lk) && y.legs[lk].q.abs() > tol { d.deep.push(format!("{} {}: leg {} {:?} only in second", k.0, k.1, lk.0, lk.1)); }
                 }
             }
         }
